@@ -70,8 +70,19 @@ def project(prog, cfg):
         files["test_something.py"] = src
     xf = cfg.get("xfail")
     if xf is not None:
+        how = cfg.get("xfail_at", "function")
         for k in list(files):
-            files[k] = "import pytest\n" + files[k].replace("def test_", "@pytest.mark.xfail%s\ndef test_" % xf)
+            if how == "function":
+                files[k] = "import pytest\n" + files[k].replace("def test_", "@pytest.mark.xfail%s\ndef test_" % xf)
+            else:
+                head, _, rest = files[k].partition("\n\n\n")
+                body = "\n".join(("    " + l if l else l) for l in rest.replace("def test_create():", "def test_create(self):").replace(
+                    "def test_fix():", "def test_fix(self):").replace("def test_trim():", "def test_trim(self):").replace(
+                    "def test_update():", "def test_update(self):").replace("def test_ext_create():", "def test_ext_create(self):").replace(
+                    "def test_ext_keep():", "def test_ext_keep(self):").split("\n"))
+                mark = "@pytest.mark.xfail%s\n" % xf if "class" in how else ""
+                pm = "pytestmark = pytest.mark.xfail%s\n" % xf if "module" in how else ""
+                files[k] = "import pytest\n" + head + "\n" + pm + "\n\n" + mark + "class TestX:\n" + body
     pp = []
     tool = []
     if cfg.get("default") is not None:
@@ -253,7 +264,7 @@ def configs(tier):
             cf.append({"env": s})
         cf.append({"default": s})
     opts = (None, ["create"], ["fix"], ["trim"])
-    for a in opts:                                            # precedence CLI > env > pyproject
+    for a in opts + ([],):                                    # precedence CLI > env > pyproject
         for b in opts:
             for c in opts:
                 cf.append({"cli": a, "env": b, "default": c})
@@ -278,6 +289,9 @@ def configs(tier):
     for xf in ("", "()", "(strict=True)", "(reason='x')", "(False, reason='x')", "(True, reason='x')"):  # xfail
         for s in (list(CATS), ["create", "fix"], ["review"], ["trim"]):
             cf.append({"xfail": xf, "cli": s, "answers": "yyyy" if s == ["review"] else None})
+    for how in ("class", "module", "classmodule"):            # inherited xfail marks
+        for s in (list(CATS), ["review"], ["report", "fix"]):
+            cf.append({"xfail": "", "xfail_at": how, "cli": s, "answers": "yyyy" if s == ["review"] else None})
     cf += [{"cli": ["bogus"]}, {"cli": ["disable", "fix"]}, {"env": ["disable", "fix"]}, {"default": ["creat"]}, {"env": ["Fix"]},
            {"cli": ["review", "disable"]}, {"cli": ["fix", ""]}, {"cli": ["", "trim"]}]
     out = []
